@@ -32,11 +32,12 @@ PROPS = ["Prop_Steps", "Prop_UpCount", "Prop_CacheChange", "Prop_InvalExact"]
 
 # deviation switched on in the design model -> the property TLC must report as violated
 CANARIES = [
-    ("marker_first", {"K_MarkerFirst": "TRUE"}, "Prop_Steps"),
-    ("score_is_similarity", {"K_ScoreIsSimilarity": "TRUE"}, "Prop_Steps"),
-    ("nearest_only", {"K_NearestOnly": "TRUE"}, "Prop_Steps"),
-    ("inval_noop", {"K_Inval": '"noop"'}, "Prop_InvalExact"),
-    ("inval_token", {"K_Inval": '"token"', "DocTokens": "<- c_TokPath"}, "Prop_InvalExact"),
+    # (a wrong step that also changes the state violates the invariant and the action property; TLC reports whichever it evaluates first)
+    ("marker_first", {"K_MarkerFirst": "TRUE"}, ("Prop_Steps", "Inv_Steps")),
+    ("score_is_similarity", {"K_ScoreIsSimilarity": "TRUE"}, ("Prop_Steps", "Inv_Steps")),
+    ("nearest_only", {"K_NearestOnly": "TRUE"}, ("Prop_Steps", "Inv_Steps")),
+    ("inval_noop", {"K_Inval": '"noop"'}, ("Prop_InvalExact",)),
+    ("inval_token", {"K_Inval": '"token"', "DocTokens": "<- c_TokPath"}, ("Prop_InvalExact",)),
 ]
 
 # concrete configurations the histories are replayed in
@@ -51,6 +52,7 @@ PROFILES = [
 
 
 def binary():
+    # VERIF_GATEWAY_BIN: a prebuilt harness (e.g. built against a patched copy of the repository) instead of building from /repo
     return os.environ.get("VERIF_GATEWAY_BIN") or vlib.build_harness(cmd="vgateway")
 
 
@@ -89,11 +91,11 @@ def canaries(chk, names, timeout=300):
         if isinstance(r, Exception):
             chk.infra.append("canary %s: %s" % (name, r))
             continue
-        chk.cov["tlc_runs"].append({"config": "canary_" + name, "expected_violation": want, "violated": r.violated,
+        chk.cov["tlc_runs"].append({"config": "canary_" + name, "expected_violation": "|".join(want), "violated": r.violated,
                                     "distinct_states": r.distinct, "wall_s": round(r.wall, 1)})
-        if r.violated != want:
+        if r.violated not in want:
             chk.infra.append("sensitivity canary %s: TLC was expected to report %s, reported %s -- the properties are vacuous for this deviation\n%s" % (
-                name, want, r.violated, r.raw_tail[-800:]))
+                name, " or ".join(want), r.violated, r.raw_tail[-800:]))
         else:
             caught.append(name)
     return caught
